@@ -31,12 +31,12 @@ CONTROL = r"^std::process::exit"          # must be found by the same scan (posi
 SEVERITY = {"hash": 4, "lines": 3, "text": 2, "factors": 1, "fixed": 0, "steps": 0}
 LISTY = frozenset(["iter", "map", "filter", "filter_map", "collect", "cloned", "chain", "extend", "push", "ite", "sorted",
                    "sort_by_key", "retain", "map_inplace", "rev", "skip", "take", "enumerate", "zip", "iter_mut", "copied",
-                   "subrange", "slice_from", "upd_first", "setidx"])
+                   "subrange", "slice_from", "upd_first", "setidx", "take_while", "skip_while", "map_while", "step_by"])
 HASHY = frozenset(["collect_set", "eiter", "emap", "eset", "collect_map", "empty_set", "empty_map", "setinsert", "mapinsert",
                    "mapremove", "set_insert_new"])
 SENSITIVE = frozenset(["index", "first_val", "last_val", "find_val", "position_val", "upd_first", "fold", "foldgen", "fold_last",
                        "foldres", "first_err", "loop_pick", "skip", "take", "subrange", "slice_from", "enumerate", "setidx",
-                       "havoc", "unsupported"])
+                       "havoc", "unsupported", "take_while", "skip_while", "map_while", "step_by"])
 COMMUTATIVE = frozenset(["add-recurrence", "becomes-present", "keyed-accumulation", "empty-or-sum", "record-fields", "option-sum",
                          "max-recurrence", "min-recurrence", "stays-true"])
 
